@@ -163,6 +163,19 @@ def run_flow(ctx) -> RuleResult:
                     derivation=describe_path(path)))
     # coefficient elision: '' only for coefficient == 1, '-' only for coefficient == -1
     n_elide = 0
+    # a local bound once to an expression stands for that expression (coefficient = coefficients[idx])
+    single = {}
+    for node in ast.walk(func):
+        if isinstance(node, ast.Assign) and len(node.targets) == 1 and isinstance(node.targets[0], ast.Name):
+            single.setdefault(node.targets[0].id, []).append(node.value)
+
+    def canon(expr) -> str:
+        for _ in range(4):
+            if isinstance(expr, ast.Name) and len(single.get(expr.id, [])) == 1:
+                expr = single[expr.id][0]
+            else:
+                break
+        return U(expr)
     for node in ast.walk(term_loop):
         value = None
         if isinstance(node, ast.Assign) and isinstance(node.value, ast.Constant) and node.value.value in ("", "-"):
@@ -187,13 +200,13 @@ def run_flow(ctx) -> RuleResult:
                         -comp.operand.value if isinstance(comp, ast.UnaryOp) and isinstance(comp.op, ast.USub)
                         and isinstance(comp.operand, ast.Constant) else None)
                     if lit == want and isinstance(conj.left, (ast.Subscript, ast.Name)):
-                        compared = U(conj.left)
+                        compared = canon(conj.left)
             if compared is not None:
                 # the compared expression is the coefficient that the fall-back branch prints with str(...)
                 chain = guard
                 while isinstance(getattr(chain, "_parent", None), ast.If) and chain in chain._parent.orelse:
                     chain = chain._parent
-                printed = {U(c.args[0]) for c in calls_in(chain) if isinstance(c.func, ast.Name) and c.func.id == "str" and c.args}
+                printed = {canon(c.args[0]) for c in calls_in(chain) if isinstance(c.func, ast.Name) and c.func.id == "str" and c.args}
                 ok = compared in printed
         result.ob(f"coefficient text {value!r} is elided only for coefficient == {want}", ok, module.loc(node),
                   U(guard.test)[:80] if isinstance(guard, ast.If) else "")
